@@ -13,6 +13,13 @@ import (
 // them to the source: inside the functions below no such method is applied to a time value.
 //
 //   - clock_strips: occurrences "file:func:method" found (must be empty);
+//   - clock_wall_reads: occurrences "file:func:method" where the WALL-clock reading of an instant is taken
+//     (Unix, UnixNano, UnixMilli, UnixMicro, Nanosecond, Date, Clock, YearDay, Marshal*, or an instant
+//     constructed by time.Unix / time.UnixMilli / time.UnixMicro / time.Date inside a function) and the
+//     result flows anywhere but into one of the two sinks the code has: a float64(...) conversion (the
+//     value of a Prometheus gauge) or rand.NewSource(...) (the seed of a PRNG).  Arithmetic on such
+//     readings is arithmetic on the wall clock although no stripping method is called (must be empty);
+//   - clock_wall_sinks: how many wall-clock readings flowed into the two sinks (sentinel: the scan sees them);
 //   - clock_funcs_found: how many of the functions of interest were found (sentinel against renames).
 func init() {
 	register("ExtClock", func(x *ctx) string {
@@ -31,8 +38,11 @@ func init() {
 			{"internal/system/dialer.go", []string{"Dialer.init", "Dialer.Dial"}},
 		}
 		stripping := map[string]bool{"UTC": true, "Local": true, "In": true, "AddDate": true}
-		var found []string
-		nfuncs := 0
+		var found, wall []string
+		nfuncs, sinks := 0, 0
+		wallRead := map[string]bool{"Unix": true, "UnixNano": true, "UnixMilli": true, "UnixMicro": true, "Nanosecond": true,
+			"Date": true, "Clock": true, "YearDay": true, "MarshalBinary": true, "MarshalText": true, "MarshalJSON": true, "GobEncode": true}
+		wallMake := map[string]bool{"Unix": true, "UnixMilli": true, "UnixMicro": true, "Date": true, "Parse": true, "ParseInLocation": true}
 		for _, tg := range targets {
 			f := x.file(tg.file)
 			if f == nil {
@@ -53,10 +63,38 @@ func init() {
 					continue
 				}
 				fn := fd.Name.Name
+				var stack []ast.Node
 				ast.Inspect(fd.Body, func(nd ast.Node) bool {
+					if nd == nil {
+						stack = stack[:len(stack)-1]
+						return true
+					}
+					stack = append(stack, nd)
 					call, ok := nd.(*ast.CallExpr)
 					if !ok {
 						return true
+					}
+					if sel, ok := call.Fun.(*ast.SelectorExpr); ok {
+						id, isPkg := sel.X.(*ast.Ident)
+						isTimePkg := isPkg && id.Name == "time"
+						switch {
+						case isTimePkg && wallMake[sel.Sel.Name]:
+							wall = append(wall, tg.file+":"+fn+":time."+sel.Sel.Name)
+						case !isTimePkg && wallRead[sel.Sel.Name] && len(call.Args) == 0:
+							// the enclosing expression, parentheses skipped
+							var parent ast.Node
+							for i := len(stack) - 2; i >= 0; i-- {
+								if _, ok := stack[i].(*ast.ParenExpr); !ok {
+									parent = stack[i]
+									break
+								}
+							}
+							if isWallSink(parent, call) {
+								sinks++
+							} else {
+								wall = append(wall, tg.file+":"+fn+":"+sel.Sel.Name)
+							}
+						}
 					}
 					sel, ok := call.Fun.(*ast.SelectorExpr)
 					if !ok {
@@ -84,11 +122,42 @@ func init() {
 			}
 		}
 		sort.Strings(found)
+		sort.Strings(wall)
 		b.WriteString("(* methods that strip the monotonic clock reading, applied to a time value inside the scheduling / lifetime / parsing functions *)\n")
 		b.WriteString("Definition clock_strips : list string := [" + quoteJoin(found) + "].\n")
+		b.WriteString("(* wall-clock readings of an instant that flow anywhere but into a gauge value float64(...) or a PRNG seed rand.NewSource(...) *)\n")
+		b.WriteString("Definition clock_wall_reads : list string := [" + quoteJoin(wall) + "].\n")
+		defZ(&b, x, "clock_wall_sinks", int64(sinks), true, "wall-clock readings that are gauge values or PRNG seeds")
 		defZ(&b, x, "clock_funcs_found", int64(nfuncs), true, "functions of interest found")
 		return b.String()
 	})
+}
+
+// isWallSink: parent is float64(<call>) or rand.NewSource(<call>) with <call> as its only argument.
+func isWallSink(parent ast.Node, call *ast.CallExpr) bool {
+	pc, ok := parent.(*ast.CallExpr)
+	if !ok || len(pc.Args) != 1 {
+		return false
+	}
+	arg := pc.Args[0]
+	for {
+		a, ok := arg.(*ast.ParenExpr)
+		if !ok {
+			break
+		}
+		arg = a.X
+	}
+	if arg != ast.Expr(call) {
+		return false
+	}
+	switch f := pc.Fun.(type) {
+	case *ast.Ident:
+		return f.Name == "float64"
+	case *ast.SelectorExpr:
+		id, ok := f.X.(*ast.Ident)
+		return ok && id.Name == "rand" && f.Sel.Name == "NewSource"
+	}
+	return false
 }
 
 var instantNames = map[string]bool{"now": true, "epoch": true, "deadline": true, "lastMulticast": true, "next": true, "due": true,
